@@ -49,3 +49,29 @@ Proof.
 Qed.
 
 End P.
+
+(* LIMB back-fill for a transition between two NON-interacting pair states with the solute on the same site s:
+   preT1 = preT0 * sq(pS*pS), ET1 = ET0 + half*(ES+ES)  has exactly the weight of the bare transition state times the
+   solute site weight, i.e. the swing rate equals the bare vacancy rate.  sq, half: any functions with the laws below. *)
+Section Limb.
+Variable K : ordring.
+Variable ex : K -> K.
+Variable sq : K -> K.
+Variable half : K.
+Hypothesis ex_add : forall a b, ex (radd K a b) = rmul K (ex a) (ex b).
+Hypothesis sq_sq : forall a, rle K (r0 K) a -> sq (rmul K a a) = a.
+Hypothesis half_half : radd K half half = r1 K.
+Add Ring Kr6 : (r_ring K).
+
+Theorem limb_noninteracting_is_bare preT0 ET0 pS ES :
+  rle K (r0 K) pS ->
+  weight ex (rmul K preT0 (sq (rmul K pS pS)), radd K ET0 (rmul K half (radd K ES ES)))
+  = rmul K (weight ex (preT0, ET0)) (weight ex (pS, ES)).
+Proof.
+  intro Hp. unfold weight; cbn [fst snd]. rewrite (sq_sq pS Hp).
+  replace (rmul K half (radd K ES ES)) with (rmul K (radd K half half) ES) by ring.
+  rewrite half_half.
+  replace (ropp K (radd K ET0 (rmul K (r1 K) ES))) with (radd K (ropp K ET0) (ropp K ES)) by ring.
+  rewrite ex_add. ring.
+Qed.
+End Limb.
